@@ -36,6 +36,7 @@ def _bs_units():
 
 
 HARNESSES = {
+    "any": dict(units=[dict(src="any.cpp")]),
     "variant": dict(units=[dict(src="variant.cpp")]),
     "bitset": dict(units=_bs_units()),
     "fstring": dict(units=_fs_units()),
@@ -176,6 +177,32 @@ PROPS["C05"] = dict(
                  "a moved-from alternative keeps its identity and is marked; the model accepts a source of a move being unchanged or moved-from"],
 )
 
+PROPS["C06"] = dict(
+    level="fault_enumeration",
+    batches=dict(
+        quick=[dict(harness="any", build="san", runs=150000, wall_cap=600),
+               dict(harness="any", build="san", runs=8000, offset=150000, enumerate=True, wall_cap=600)],
+        thorough=[dict(harness="any", build="san", runs=1000000, wall_cap=2400),
+                  dict(harness="any", build="san", runs=60000, offset=1000000, enumerate=True, wall_cap=2400),
+                  dict(harness="any", build="plain", runs=600000, offset=1060000, enumerate=True, wall_cap=2400),
+                  dict(harness="any", build="plain", runs=200, offset=1660000, valgrind=True, workers=8, wall_cap=1200)],
+    ),
+    rule=("a case is one execution of a seeded history (1-15 operations) over three xtl::any objects and eight payload types on both sides of the in-place/heap threshold "
+          "(int, two small nothrow-move tracked types and shared_ptr in place; a large, a throwing-move and an over-aligned tracked type and std::string on the heap). "
+          "A fault is 'the k-th fault point of this step fails', a fault point being a payload copy/move (throws) or an allocation by xtl::any (operator new is replaced; bad_alloc). "
+          "Random batches attach faults to steps; enumerate batches re-execute each sampled history once per (step, k). Oracles after every step: lifetime registry, "
+          "has_value/empty/type and pointer any_cast for all eight types agree with the model, live tracked objects == objects held; a failed copy/value assignment leaves the target with its previous value. "
+          "Non-trivial: at least two state-changing steps and, if a fault is attached, it fired. Distinct: distinct run digests."),
+    probes=["swap_in_place_with_heap", "self_swap_in_place", "self_swap_heap", "self_swap_empty", "swap_same_type_in_place", "swap_same_type_heap", "swap_empty_with_nonempty",
+            "assignment_fault_with_nonempty_target", "cast_with_cv_qualified_type", "cast_with_other_type", "moved_from_object_reused", "moved_from_observed",
+            "copy_mutated_independently", "constructor_threw", "self_copy_assignment", "self_move_assignment"],
+    components=dict(real=["include/xtl/xany.hpp (any, any_cast in pointer/reference/value/rvalue forms, swap, vtables for in-place and heap storage)"],
+                    stub=["lifetime-tracked payload types with a fault point in every copy/move", "replaced global operator new/delete (allocation failure as a fault point)", "dirty, red-zoned arena memory under every any"]),
+    assumptions=["a moved-from any may be empty or still hold an object of the same type; both are accepted as 'valid to query, assign or destroy'",
+                 "over-aligned means alignas(16), the largest alignment plain operator new guarantees in C++14",
+                 "only xtl's own code runs with faults enabled; the harness' temporaries are built and destroyed with faults suspended"],
+)
+
 PENDING = "claimed in DESIGN.md section 4 but its harness is not built yet in this tree; listed here until the check exists"
 NOT_APPLICABLE = {
     "C04": "pure function of the operands of one call (presence flags and values); no history, fault position, schedule or environment to simulate (DESIGN.md 5)",
@@ -216,6 +243,12 @@ MANIFEST_TEXT = {
         design_ref="4.4",
         note="histories are sampled, fault positions inside each sampled history are enumerated; the table-based visitation path does not exist on this toolchain",
         technique="deterministic simulation with fault injection: injected throws at enumerated fault points, lifetime registry, reference model of std::variant semantics",
+    ),
+    "C06": dict(
+        text="fault enumeration inside seeded histories over three xtl::any objects and eight payload types on both sides of the in-place/heap threshold: each sampled history runs fault-free and then once per (step, k) with the k-th payload copy/move throwing or the k-th allocation failing; a lifetime registry checks construct-once/destroy-once/no-use-after-destruction, has_value/type/any_cast for every type must agree with the model after every step, a failed copy or value assignment must leave the target's previous value, copies must be independent, casts succeed only for exactly the stored type",
+        design_ref="4.5",
+        note="histories are sampled, fault positions inside each sampled history are enumerated; global operator new is replaced in the harness binary",
+        technique="deterministic simulation with fault injection: injected throws and allocation failures at enumerated fault points, lifetime registry, reference model",
     ),
     "C14": dict(
         text="hash coherence across simulated histories: std::hash of every fixed string equals the reference MurmurHash64A of its characters after every step, equal contents reached by different histories (different stale bytes), in different layouts and capacities hash equally; the byte hashes are additionally evaluated on the buffers the simulation produces at every alignment in exact-size blocks against an independent reference (that half is evaluation of a pure function on simulated states and is reported under its own counter)",
